@@ -1,9 +1,573 @@
 package gchecks
 
 import (
+	"fmt"
+	"os"
+	"path/filepath"
+	"strconv"
+	"strings"
+
+	real "github.com/fsnotify/fsnotify"
+	"golang.org/x/sys/unix"
+
 	"harness/core"
+	fenx "kqsim/fenx"
+	kq "kqsim/kqfsnotify"
+	sim "kqsim/simunix"
+	winx "kqsim/winx"
+	"kqsim/winx/stub/windows"
 )
 
 func init() {
-	_ = core.Registry
+	core.Register(&core.Check{
+		ID:     "C15",
+		Binary: "vgen",
+		Level:  "exploration",
+		Rule: "E-enum over the whole finite domains, real functions executed: (inotify, translate) newEvent on all 2^12 combinations of the twelve inspected IN_* bits x 2^4 housekeeping bits (IN_ISDIR, IN_IGNORED, IN_UNMOUNT, IN_Q_OVERFLOW) x cookie {0,n}: result == reference table, f(a|b)==f(a)|f(b), housekeeping bits never change the operations; " +
+			"(inotify, request) all 2^9 operation subsets x {follow, no-follow} x {file, directory} through AddWith on real paths, the kernel's stored mask read back from /proc/self/fdinfo == reference (every requested operation observable, no unrelated flag; the empty set fails and leaves the set untouched); plus a behavioural pass: for each single operation a scripted set of real changes must produce only that operation and must produce it; " +
+			"(kqueue) the copied backend's newEvent on all 2^11 NOTE_* combinations (Write dropped with Remove, otherwise union-homomorphic), noteAllEvents == DELETE|WRITE|ATTRIB|RENAME, the fflags actually registered per knote class in the simulator, link spelling; " +
+			"(Windows) extracted newEvent on all 2^16 low masks of the sysFS* space (Chmod never), toWindowsFlags on all 2^12 masks, toFSnotifyFlags on every action 0..1023 and PRNG values; xSupports of kqueue/Windows/FEN/inotify over all 2^9 operation sets. distinct_nontrivial = distinct native masks / op sets evaluated with a non-empty result",
+		Assumptions: []string{"reference tables (harness/gen/tmpl/gchecks/c15.go) are written from the documentation of each native API", "Windows and FEN: only the extracted pure functions run (real Win32 constant values); their event loops do not exist on Linux", "kqueue registration is observed on the simulated kqueue"},
+		Batches:     func(t string) int { return 1 },
+		MustObserve: []string{"inotify_translate_masks", "inotify_request_adds", "inotify_behaviour_events", "kqueue_translate_masks", "windows_translate_masks", "xsupports_evaluations", "kqueue_knotes_seen"},
+		Exhaustive:  true,
+		Run:         runC15,
+	})
+}
+
+var inBits = []struct {
+	bit uint32
+	op  real.Op
+}{
+	{unix.IN_CREATE, real.Create}, {unix.IN_MOVED_TO, real.Create},
+	{unix.IN_DELETE, real.Remove}, {unix.IN_DELETE_SELF, real.Remove},
+	{unix.IN_MODIFY, real.Write},
+	{unix.IN_MOVED_FROM, real.Rename}, {unix.IN_MOVE_SELF, real.Rename},
+	{unix.IN_ATTRIB, real.Chmod},
+	{unix.IN_OPEN, real.VerifUnportableOpen}, {unix.IN_ACCESS, real.VerifUnportableRead},
+	{unix.IN_CLOSE_WRITE, real.VerifUnportableCloseWrite}, {unix.IN_CLOSE_NOWRITE, real.VerifUnportableCloseRead},
+}
+
+// reqRef: which native flags a requested operation needs (reference, from inotify(7)).
+var reqRef = []struct {
+	op   real.Op
+	mask uint32
+}{
+	{real.Create, unix.IN_CREATE},
+	{real.Write, unix.IN_MODIFY},
+	{real.Remove, unix.IN_DELETE | unix.IN_DELETE_SELF},
+	{real.Rename, unix.IN_MOVED_TO | unix.IN_MOVED_FROM | unix.IN_MOVE_SELF},
+	{real.Chmod, unix.IN_ATTRIB},
+	{real.VerifUnportableOpen, unix.IN_OPEN},
+	{real.VerifUnportableRead, unix.IN_ACCESS},
+	{real.VerifUnportableCloseWrite, unix.IN_CLOSE_WRITE},
+	{real.VerifUnportableCloseRead, unix.IN_CLOSE_NOWRITE},
+}
+
+func fdinfoMask(fd int, wd uint32) (uint32, bool) {
+	b, err := os.ReadFile(fmt.Sprintf("/proc/self/fdinfo/%d", fd))
+	if err != nil {
+		return 0, false
+	}
+	for _, l := range strings.Split(string(b), "\n") {
+		if !strings.HasPrefix(l, "inotify wd:") {
+			continue
+		}
+		var w, m uint64
+		for _, f := range strings.Fields(l)[1:] {
+			kv := strings.SplitN(f, ":", 2)
+			v, _ := strconv.ParseUint(kv[1], 16, 64)
+			switch kv[0] {
+			case "wd":
+				w = v
+			case "mask":
+				m = v
+			}
+		}
+		if uint32(w) == wd {
+			return uint32(m), true
+		}
+	}
+	return 0, false
+}
+
+func firstWd(fd int) uint32 {
+	b, _ := os.ReadFile(fmt.Sprintf("/proc/self/fdinfo/%d", fd))
+	for _, l := range strings.Split(string(b), "\n") {
+		if strings.HasPrefix(l, "inotify wd:") {
+			v, _ := strconv.ParseUint(strings.TrimPrefix(strings.Fields(l)[1], "wd:"), 16, 64)
+			return uint32(v)
+		}
+	}
+	return 0
+}
+
+func runC15(c *core.Ctx) {
+	if _, ok := c.CaseRng(0, "enumeration"); !ok {
+		return
+	}
+	c15InotifyTranslate(c)
+	c15InotifyRequest(c)
+	c15Kqueue(c)
+	c15Windows(c)
+	c15Supports(c)
+}
+
+func c15InotifyTranslate(c *core.Ctx) {
+	w, err := real.NewWatcher()
+	if err != nil {
+		c.Broken(err.Error())
+		return
+	}
+	defer w.Close()
+	ref := func(mask uint32) real.Op {
+		var o real.Op
+		for _, b := range inBits {
+			if mask&b.bit != 0 {
+				o |= b.op
+			}
+		}
+		return o
+	}
+	house := []uint32{unix.IN_ISDIR, unix.IN_IGNORED, unix.IN_UNMOUNT, unix.IN_Q_OVERFLOW}
+	nv := 0
+	viol := func(sig, text string, wit interface{}) {
+		nv++
+		if nv <= 6 {
+			c.Violate(sig, text, wit)
+		}
+	}
+	singles := map[uint32]real.Op{}
+	for _, b := range inBits {
+		singles[b.bit] = real.VerifNewEvent(w, "n", b.bit, 0).Op
+	}
+	for m := 0; m < 1<<12; m++ {
+		var mask uint32
+		for i, b := range inBits {
+			if m&(1<<i) != 0 {
+				mask |= b.bit
+			}
+		}
+		want := ref(mask)
+		var union real.Op
+		for _, b := range inBits {
+			if mask&b.bit != 0 {
+				union |= singles[b.bit]
+			}
+		}
+		for h := 0; h < 16; h++ {
+			hm := mask
+			for i, hb := range house {
+				if h&(1<<i) != 0 {
+					hm |= hb
+				}
+			}
+			for _, cookie := range []uint32{0, 0x1234} {
+				e := real.VerifNewEvent(w, "name", hm, cookie)
+				c.Res.Counters["inotify_translate_masks"]++
+				if e.Op != want {
+					viol("inotify-translate", fmt.Sprintf("inotify newEvent(mask=%#x [%s], cookie=%d) = %s, reference %s", hm, maskStr(hm), cookie, e.Op, want), hm)
+				}
+				if e.Op != union {
+					viol("inotify-not-union", fmt.Sprintf("inotify newEvent(mask=%#x) = %s but the union of its single-bit translations is %s", hm, e.Op, union), hm)
+				}
+				if e.Name != "name" {
+					viol("inotify-translate", fmt.Sprintf("newEvent changed the name to %q", e.Name), hm)
+				}
+			}
+		}
+		if want != 0 {
+			c.Distinct("in", mask)
+		}
+	}
+	c.Eval(1 << 17)
+	c.Sample(map[string]interface{}{"backend": "inotify", "mask": "IN_CREATE|IN_MOVED_FROM|IN_ISDIR", "ops": real.VerifNewEvent(w, "n", unix.IN_CREATE|unix.IN_MOVED_FROM|unix.IN_ISDIR, 0).Op.String()})
+}
+
+func maskStr(m uint32) string {
+	names := map[uint32]string{unix.IN_ACCESS: "ACCESS", unix.IN_MODIFY: "MODIFY", unix.IN_ATTRIB: "ATTRIB", unix.IN_CLOSE_WRITE: "CLOSE_WRITE", unix.IN_CLOSE_NOWRITE: "CLOSE_NOWRITE",
+		unix.IN_OPEN: "OPEN", unix.IN_MOVED_FROM: "MOVED_FROM", unix.IN_MOVED_TO: "MOVED_TO", unix.IN_CREATE: "CREATE", unix.IN_DELETE: "DELETE", unix.IN_DELETE_SELF: "DELETE_SELF",
+		unix.IN_MOVE_SELF: "MOVE_SELF", unix.IN_UNMOUNT: "UNMOUNT", unix.IN_Q_OVERFLOW: "Q_OVERFLOW", unix.IN_IGNORED: "IGNORED", unix.IN_ISDIR: "ISDIR", unix.IN_DONT_FOLLOW: "DONT_FOLLOW", unix.IN_MASK_ADD: "MASK_ADD"}
+	var p []string
+	for b := uint32(1); b != 0; b <<= 1 {
+		if m&b != 0 {
+			if n, ok := names[b]; ok {
+				p = append(p, n)
+			} else {
+				p = append(p, fmt.Sprintf("%#x", b))
+			}
+		}
+	}
+	return strings.Join(p, "|")
+}
+
+func c15InotifyRequest(c *core.Ctx) {
+	w, err := real.NewWatcher()
+	if err != nil {
+		c.Broken(err.Error())
+		return
+	}
+	defer w.Close()
+	go func() {
+		for range w.Errors {
+		}
+	}()
+	evs := make(chan real.Event, 4096)
+	go func() {
+		for e := range w.Events {
+			select {
+			case evs <- e:
+			default:
+			}
+		}
+	}()
+	dir := filepath.Join(c.Tmp, "c15")
+	os.MkdirAll(filepath.Join(dir, "d"), 0o755)
+	os.WriteFile(filepath.Join(dir, "f"), nil, 0o644)
+	os.Symlink(filepath.Join(dir, "f"), filepath.Join(dir, "lf"))
+	fd := real.VerifInotifyFd(w)
+	nv := 0
+	for _, target := range []string{"d", "f", "lf"} {
+		p := filepath.Join(dir, target)
+		for m := 0; m < 512; m++ {
+			var ops real.Op
+			var want uint32
+			for i, r := range reqRef {
+				if m&(1<<i) != 0 {
+					ops |= r.op
+					want |= r.mask
+				}
+			}
+			for _, nofollow := range []bool{false, true} {
+				opts := []real.VerifAddOpt{real.VerifWithOps(ops)}
+				if nofollow {
+					opts = append(opts, real.VerifWithNoFollow())
+				}
+				before := len(w.WatchList())
+				err := w.AddWith(p, opts...)
+				c.Res.Counters["inotify_request_adds"]++
+				if ops == 0 {
+					// Nothing requested: either the Add fails and leaves the set untouched, or it
+					// succeeds with a kernel mask without any event bit (the kernel accepts a mask of
+					// IN_DONT_FOLLOW alone). The statement does not demand a failure.
+					if err == nil {
+						if got, ok := fdinfoMask(fd, firstWd(fd)); !ok || got&unix.IN_ALL_EVENTS != 0 {
+							c.Violate("inotify-request-empty", fmt.Sprintf("AddWith(%s, ops=none, nofollow=%v) subscribed to %s", target, nofollow, maskStr(got&unix.IN_ALL_EVENTS)), nil)
+						}
+						w.Remove(p)
+					} else if len(w.WatchList()) != before {
+						c.Violate("inotify-request-empty", "a failed AddWith changed the watch set", nil)
+					}
+					continue
+				}
+				if err != nil {
+					nv++
+					if nv < 6 {
+						c.Violate("inotify-request", fmt.Sprintf("AddWith(%s, %s, nofollow=%v) failed: %v", target, ops, nofollow, err), nil)
+					}
+					continue
+				}
+				marks := 0
+				var got uint32
+				b, _ := os.ReadFile(fmt.Sprintf("/proc/self/fdinfo/%d", fd))
+				for _, l := range strings.Split(string(b), "\n") {
+					if strings.HasPrefix(l, "inotify wd:") {
+						marks++
+						for _, f := range strings.Fields(l)[1:] {
+							if strings.HasPrefix(f, "mask:") {
+								v, _ := strconv.ParseUint(f[5:], 16, 64)
+								got = uint32(v)
+							}
+						}
+					}
+				}
+				if marks != 1 {
+					c.Broken(fmt.Sprintf("expected exactly one kernel mark, found %d", marks))
+					return
+				}
+				// the kernel stores the event bits plus its own IN_EXCL_UNLINK/ONLYDIR flags; DONT_FOLLOW/MASK_ADD are not stored
+				got &= unix.IN_ALL_EVENTS
+				if got != want {
+					nv++
+					if nv < 6 {
+						missing, extra := want&^got, got&^want
+						c.Violate("inotify-request", fmt.Sprintf("AddWith(%s, ops=%s, nofollow=%v): kernel mask %s; needed to observe the request: %s; missing [%s] unrelated [%s]", target, ops, nofollow, maskStr(got), maskStr(want), maskStr(missing), maskStr(extra)), map[string]interface{}{"ops": uint32(ops)})
+					}
+				}
+				if err := w.Remove(p); err != nil {
+					c.Broken("Remove: " + err.Error())
+					return
+				}
+				c.Distinct("req", target, m, nofollow)
+			}
+		}
+	}
+	c.Eval(512 * 2 * 3)
+	// behavioural pass: single operations on a directory watch
+	drain := func() []real.Event {
+		var l []real.Event
+		for {
+			select {
+			case e := <-evs:
+				l = append(l, e)
+			default:
+				return l
+			}
+		}
+	}
+	d := filepath.Join(dir, "d")
+	for _, r := range reqRef[:5] {
+		if err := w.AddWith(d, real.VerifWithOps(r.op)); err != nil {
+			c.Broken(err.Error())
+			return
+		}
+		sent := filepath.Join(c.Tmp, "c15sent")
+		os.MkdirAll(sent, 0o755)
+		w.AddWith(sent, real.VerifWithOps(real.Create))
+		drain()
+		x := filepath.Join(d, "x")
+		os.WriteFile(x, []byte("1"), 0o644) // create + write
+		os.Chmod(x, 0o600)                  // chmod
+		os.Rename(x, x+"2")                 // rename
+		os.Remove(x + "2")                  // remove
+		// barrier
+		mark := filepath.Join(sent, "m"+r.op.String())
+		os.WriteFile(mark, nil, 0o644)
+		var got []real.Event
+		deadline := 0
+		for done := false; !done && deadline < 200000; deadline++ {
+			select {
+			case e := <-evs:
+				if e.Name == mark {
+					done = true
+				} else {
+					got = append(got, e)
+				}
+			default:
+				unix.Nanosleep(&unix.Timespec{Nsec: 50000}, nil)
+			}
+		}
+		var seen real.Op
+		for _, e := range got {
+			if strings.HasPrefix(e.Name, d) {
+				seen |= e.Op
+				c.Res.Counters["inotify_behaviour_events"]++
+			}
+		}
+		// with only r.op requested: that operation must be seen; Create is also what a requested
+		// Rename legitimately reports for the new name (IN_MOVED_TO)
+		allowed := r.op
+		if r.op == real.Rename {
+			allowed |= real.Create
+		}
+		if seen&r.op == 0 {
+			c.Violate("inotify-request-unobservable", fmt.Sprintf("requested only %s on a directory; create/write/chmod/rename/remove of an entry produced %s: the requested operation was not observable", r.op, seen), nil)
+		}
+		if seen&^allowed != 0 {
+			c.Violate("inotify-request-unrelated", fmt.Sprintf("requested only %s on a directory; received %s", r.op, seen), nil)
+		}
+		w.Remove(d)
+		w.Remove(sent)
+	}
+}
+
+func c15Kqueue(c *core.Ctx) {
+	type nb struct {
+		bit uint32
+		op  kq.Op
+	}
+	bits := []nb{{sim.NOTE_DELETE, kq.Remove}, {sim.NOTE_WRITE, kq.Write}, {sim.NOTE_EXTEND, 0}, {sim.NOTE_ATTRIB, kq.Chmod}, {sim.NOTE_LINK, 0}, {sim.NOTE_RENAME, kq.Rename}, {sim.NOTE_REVOKE, 0},
+		{0x80, 0}, {0x100, 0}, {0x200, 0}, {0x400, 0}} // NOTE_OPEN, NOTE_CLOSE, NOTE_CLOSE_WRITE, NOTE_READ on FreeBSD
+	norm := func(o kq.Op) kq.Op {
+		if o&kq.Remove != 0 {
+			o &^= kq.Write
+		}
+		return o
+	}
+	for m := 0; m < 1<<len(bits); m++ {
+		var mask uint32
+		var want, union kq.Op
+		for i, b := range bits {
+			if m&(1<<i) != 0 {
+				mask |= b.bit
+				want |= b.op
+				union |= kq.VerifKqNewEvent(b.bit).Op
+			}
+		}
+		e := kq.VerifKqNewEvent(mask)
+		c.Res.Counters["kqueue_translate_masks"]++
+		if e.Op != norm(want) {
+			c.Violate("kqueue-translate", fmt.Sprintf("kqueue newEvent(fflags=%#x) = %s, reference %s (Write dropped when Remove is present)", mask, e.Op, norm(want)), mask)
+			break
+		}
+		if e.Op != norm(union) {
+			c.Violate("kqueue-not-union", fmt.Sprintf("kqueue newEvent(fflags=%#x) = %s, union of single-bit translations (minus Write with Remove) = %s", mask, e.Op, norm(union)), mask)
+			break
+		}
+		if want != 0 {
+			c.Distinct("kq", mask)
+		}
+	}
+	c.Eval(1 << len(bits))
+	if kq.VerifNoteAll != sim.NOTE_DELETE|sim.NOTE_WRITE|sim.NOTE_ATTRIB|sim.NOTE_RENAME {
+		c.Violate("kqueue-request", fmt.Sprintf("noteAllEvents = %#x, needed for Remove/Write/Chmod/Rename: exactly NOTE_DELETE|NOTE_WRITE|NOTE_ATTRIB|NOTE_RENAME = %#x", uint32(kq.VerifNoteAll), uint32(sim.NOTE_DELETE|sim.NOTE_WRITE|sim.NOTE_ATTRIB|sim.NOTE_RENAME)), nil)
+	}
+	if e := kq.VerifKqNewEventLink("/target", "/link", sim.NOTE_WRITE); e.Name != "/link" {
+		c.Violate("kqueue-translate", fmt.Sprintf("event for a watch added through a link is named %q, want the link spelling", e.Name), nil)
+	}
+	// what is actually registered per knote on the simulated kqueue
+	dir := filepath.Join(c.Tmp, "c15kq")
+	os.MkdirAll(filepath.Join(dir, "d", "sub"), 0o755)
+	os.WriteFile(filepath.Join(dir, "d", "file"), nil, 0o644)
+	os.WriteFile(filepath.Join(dir, "single"), nil, 0o644)
+	w, err := kq.NewWatcher()
+	if err != nil {
+		c.Broken(err.Error())
+		return
+	}
+	col := newCollector(w)
+	w.Add(filepath.Join(dir, "d"))
+	w.Add(filepath.Join(dir, "single"))
+	col.quiesce()
+	st := kq.VerifKq(w)
+	all := uint32(sim.NOTE_DELETE | sim.NOTE_WRITE | sim.NOTE_ATTRIB | sim.NOTE_RENAME)
+	for fd, fl := range sim.Knotes(kq.VerifKqFd(w)) {
+		name := st.Wd[fd]
+		want := all
+		cls := "user path / file entry"
+		if strings.HasSuffix(name, "/sub") {
+			want = sim.NOTE_DELETE | sim.NOTE_RENAME // a sub-directory of a watched directory only needs to report its own removal/rename
+			cls = "sub-directory entry"
+		}
+		c.Res.Counters["kqueue_knotes_seen"]++
+		c.Hist("kqueue_registered_fflags", fmt.Sprintf("%s:%#x", cls, fl), 1)
+		if fl != want {
+			c.Violate("kqueue-request", fmt.Sprintf("knote for %s (%s) registered fflags %#x, reference %#x", strings.TrimPrefix(name, dir), cls, fl, want), nil)
+		}
+	}
+	w.Close()
+	<-col.done
+	for i := 0; i < 100000 && len(sim.Ledger()) > 0; i++ {
+		unix.Nanosleep(&unix.Timespec{Nsec: 50000}, nil)
+	}
+}
+
+func c15Windows(c *core.Ctx) {
+	ref := func(mask uint32) winx.Op {
+		var o winx.Op
+		if mask&(winx.VerifSysCreate|winx.VerifSysMovedTo) != 0 {
+			o |= winx.Create
+		}
+		if mask&(winx.VerifSysDelete|winx.VerifSysDeleteSelf) != 0 {
+			o |= winx.Remove
+		}
+		if mask&winx.VerifSysModify != 0 {
+			o |= winx.Write
+		}
+		if mask&(winx.VerifSysMovedFrom|winx.VerifSysMoveSelf) != 0 {
+			o |= winx.Rename
+		}
+		return o
+	}
+	single := map[uint32]winx.Op{}
+	for b := uint32(1); b < 1<<16; b <<= 1 {
+		single[b] = winx.VerifWinNewEvent(b).Op
+	}
+	nv := 0
+	for m := uint32(0); m < 1<<16; m++ {
+		e := winx.VerifWinNewEvent(m)
+		c.Res.Counters["windows_translate_masks"]++
+		var union winx.Op
+		for b := uint32(1); b < 1<<16; b <<= 1 {
+			if m&b != 0 {
+				union |= single[b]
+			}
+		}
+		if e.Op != ref(m) || e.Op != union || e.Op&winx.Chmod != 0 {
+			nv++
+			if nv < 6 {
+				c.Violate("windows-translate", fmt.Sprintf("Windows newEvent(mask=%#x) = %s; reference %s; union of single bits %s (Chmod is never produced on Windows)", m, e.Op, ref(m), union), m)
+			}
+		}
+		if ref(m) != 0 && m < 1<<12 {
+			c.Distinct("win", m)
+		}
+	}
+	c.Eval(1 << 16)
+	// request side: which FILE_NOTIFY_CHANGE_* are asked for a mask
+	for m := uint64(0); m < 1<<12; m++ {
+		var want uint32
+		if m&winx.VerifSysModify != 0 {
+			want |= windows.FILE_NOTIFY_CHANGE_LAST_WRITE
+		}
+		if m&(winx.VerifSysMovedFrom|winx.VerifSysMovedTo|winx.VerifSysCreate|winx.VerifSysDelete) != 0 {
+			want |= windows.FILE_NOTIFY_CHANGE_FILE_NAME | windows.FILE_NOTIFY_CHANGE_DIR_NAME
+		}
+		if got := winx.VerifWinToWindows(m); got != want {
+			nv++
+			if nv < 6 {
+				c.Violate("windows-request", fmt.Sprintf("toWindowsFlags(%#x) = %#x, needed %#x", m, got, want), m)
+			}
+		}
+	}
+	if got := winx.VerifWinToWindows(winx.VerifSysAll); got != windows.FILE_NOTIFY_CHANGE_LAST_WRITE|windows.FILE_NOTIFY_CHANGE_FILE_NAME|windows.FILE_NOTIFY_CHANGE_DIR_NAME {
+		c.Violate("windows-request", fmt.Sprintf("the flags every Windows watch subscribes to (sysFSALLEVENTS) map to %#x", got), nil)
+	}
+	act := map[uint32]uint64{windows.FILE_ACTION_ADDED: winx.VerifSysCreate, windows.FILE_ACTION_REMOVED: winx.VerifSysDelete, windows.FILE_ACTION_MODIFIED: winx.VerifSysModify,
+		windows.FILE_ACTION_RENAMED_OLD_NAME: winx.VerifSysMovedFrom, windows.FILE_ACTION_RENAMED_NEW_NAME: winx.VerifSysMovedTo}
+	for a := uint32(0); a < 1024; a++ {
+		if got := winx.VerifWinToFsnotify(a); got != act[a] {
+			c.Violate("windows-action", fmt.Sprintf("toFSnotifyFlags(action %d) = %#x, reference %#x", a, got, act[a]), a)
+		}
+		// end to end: action -> mask -> operations
+		wantOp := map[uint32]winx.Op{windows.FILE_ACTION_ADDED: winx.Create, windows.FILE_ACTION_REMOVED: winx.Remove, windows.FILE_ACTION_MODIFIED: winx.Write,
+			windows.FILE_ACTION_RENAMED_OLD_NAME: winx.Rename, windows.FILE_ACTION_RENAMED_NEW_NAME: winx.Create}[a]
+		if got := winx.VerifWinNewEvent(uint32(winx.VerifWinToFsnotify(a))).Op; got != wantOp {
+			c.Violate("windows-action", fmt.Sprintf("FILE_ACTION %d is reported as %s, documented %s", a, got, wantOp), a)
+		}
+	}
+	for _, a := range []uint32{1 << 16, 1 << 31, ^uint32(0)} {
+		if winx.VerifWinToFsnotify(a) != 0 {
+			c.Violate("windows-action", fmt.Sprintf("out-of-range action %#x maps to a flag", a), a)
+		}
+	}
+	c.Eval(1<<12 + 1024)
+	c.Sample(map[string]interface{}{"backend": "windows", "mask": "sysFSMOVEDTO|sysFSMODIFY", "ops": winx.VerifWinNewEvent(uint32(winx.VerifSysMovedTo | winx.VerifSysModify)).Op.String()})
+}
+
+func c15Supports(c *core.Ctx) {
+	w, err := real.NewWatcher()
+	if err != nil {
+		c.Broken(err.Error())
+		return
+	}
+	defer w.Close()
+	for m := 0; m < 512; m++ {
+		var r real.Op
+		var k kq.Op
+		var wi winx.Op
+		var f fenx.Op
+		unportable := false
+		for i := 0; i < 9; i++ {
+			if m&(1<<i) != 0 {
+				r |= real.Op(1 << i)
+				k |= kq.Op(1 << i)
+				wi |= winx.Op(1 << i)
+				f |= fenx.Op(1 << i)
+				if i >= 5 {
+					unportable = true
+				}
+			}
+		}
+		c.Res.Counters["xsupports_evaluations"] += 4
+		if !real.VerifSupports(w, r) {
+			c.Violate("supports", fmt.Sprintf("inotify claims not to support %s", r), m)
+		}
+		for name, got := range map[string]bool{"kqueue": kq.VerifKqSupports(k), "windows": winx.VerifWinSupports(wi), "fen": fenx.VerifFenSupports(f)} {
+			if got != !unportable {
+				c.Violate("supports", fmt.Sprintf("%s: xSupports(%s) = %v; the five portable operations are always supported, the four unportable ones only on inotify", name, r, got), m)
+			}
+		}
+	}
+	c.Eval(512 * 4)
 }
